@@ -27,6 +27,7 @@ import (
 	"github.com/spf13/afero"
 	"pgregory.net/rapid"
 
+	"github.com/foxboron/go-uefi/efi"
 	"github.com/foxboron/go-uefi/efi/attributes"
 	"github.com/foxboron/go-uefi/efi/device"
 	efifs "github.com/foxboron/go-uefi/efi/fs"
@@ -288,6 +289,57 @@ func init() {
 			note(err)
 			return stage, firstErr
 		},
+		"legacy_getters": func(in []byte) (int, error) {
+			// the package-level API of efi/: the same content as every variable file it knows how to read
+			mem := afero.NewMemMapFs()
+			globals, secs := []string{"BootOrder", "Boot0001", "PK", "KEK", "SetupMode", "SecureBoot"}, []string{"db", "dbx"}
+			if len(in) > 1<<16 {
+				// a size-scaling input goes into one variable only (the allocation bounds are per request, and nine
+				// copies of a megabyte decoded by nine getters are the harness's doing)
+				globals, secs = [][]string{{"BootOrder"}, {"Boot0001"}, {"PK"}}[len(in)%3], nil
+			} else {
+				afero.WriteFile(mem, efidir+"LoaderEntrySelected-4a67b082-0a4c-41cf-b6c7-440b29bb8c4f", in, 0644)
+			}
+			for _, n := range globals {
+				afero.WriteFile(mem, efidir+n+"-"+global, in, 0644)
+			}
+			for _, n := range secs {
+				afero.WriteFile(mem, efidir+n+"-"+secdb, in, 0644)
+			}
+			saved, savedDir := efifs.Fs, attributes.Efivars
+			efifs.SetFS(mem)
+			attributes.Efivars = strings.TrimSuffix(efidir, "/")
+			defer func() { efifs.SetFS(saved); attributes.Efivars = savedDir }()
+			stage := 0
+			for i, n := range efi.GetBootOrder() {
+				if i >= 64 {
+					break
+				}
+				efi.GetBootEntry(n)
+			}
+			if _, err := efi.GetBootEntry("Boot0001"); err == nil {
+				stage = 1
+			}
+			efi.GetSetupMode()
+			efi.GetSecureBoot()
+			for _, f := range []func() (*signature.SignatureDatabase, error){efi.GetPK, efi.GetKEK, efi.Getdb, efi.Getdbx} {
+				if db, err := f(); err == nil && db != nil {
+					_ = db.Bytes()
+					stage = 1
+				}
+			}
+			efi.GetCurrentlyBootedEntry()
+			// ... and the same calls when the variables do not exist at all
+			efifs.SetFS(afero.NewMemMapFs())
+			efi.GetBootOrder()
+			efi.GetBootEntry("Boot0001")
+			efi.GetSetupMode()
+			efi.GetSecureBoot()
+			efi.GetPK()
+			efi.Getdbx()
+			efi.GetCurrentlyBootedEntry()
+			return stage, nil
+		},
 		"readkey": func(in []byte) (int, error) {
 			_, err := util.ReadKey(in)
 			return stageErr(err)
@@ -342,7 +394,7 @@ func init() {
 	}
 	// entries that touch process-wide settings of the library (the package-level file system) stay sequential
 	for name, f := range entries {
-		if name != "varfile" && name != "reader_fault" && name != "testfs_write" {
+		if name != "varfile" && name != "reader_fault" && name != "testfs_write" && name != "legacy_getters" {
 			entries[name] = concurrently(f)
 		}
 	}
@@ -388,7 +440,7 @@ func validFor(t *rapid.T, entry string) []byte {
 			if rapid.IntRange(0, 2).Draw(t, "rawnode") == 0 {
 				// any node type and subtype the specification knows (and some it does not), with a body of any length;
 				// one time in three the length field lies (too small for the fixed part of the node, or too large)
-				n = devpath.Node{Kind: "raw", Type: rapid.SampledFrom([]byte{1, 2, 3, 4, 5, 0x7f, 0, 6, 0xff}).Draw(t, "ntype"), Sub: byte(rapid.IntRange(0, 32).Draw(t, "nsub")),
+				n = devpath.Node{Kind: "raw", Type: rapid.SampledFrom([]byte{1, 2, 3, 4, 5, 0x7f, 0, 6, 0xff}).Draw(t, "ntype"), Sub: rapid.SampledFrom([]byte{1, 2, 3, 3, 4, 4, 5, 6, 7, 8, 9, 10, 10, 10, 11, 12, 13, 14, 15, 18, 23, 24, 0, 32, 255}).Draw(t, "nsub"), // vendor-defined nodes (hardware 4, media 3, messaging 10) more often: a GUID plus data of any length
 					Body: gen.SizedBytes(48, 0, 2, 8, 16, 20, 38).Draw(t, "nbody")}
 				if rapid.IntRange(0, 2).Draw(t, "lenlies") == 0 {
 					n.LenField = rapid.SampledFrom([]uint16{1, 2, 3, 4, 5, 6, 8, 12, 16, 19, 20, 21, 24, 42, 0x100, 0x7fff, 0xffff}).Draw(t, "nlen")
@@ -419,6 +471,24 @@ func validFor(t *rapid.T, entry string) []byte {
 		return b
 	case "varfile":
 		return append(attrs, gen.SizedBytes(200, 0, 1).Draw(t, "val")...)
+	case "legacy_getters":
+		switch rapid.IntRange(0, 4).Draw(t, "lk") {
+		case 0:
+			return append(attrs, esl.Encode(gen.ESLStream(2).Draw(t, "db"))...)
+		case 1:
+			return append(attrs, byte(rapid.IntRange(0, 2).Draw(t, "bool")))
+		case 2:
+			b := attrs
+			for i := rapid.IntRange(0, 8).Draw(t, "nbo"); i > 0; i-- {
+				b = binary.LittleEndian.AppendUint16(b, rapid.Uint16().Draw(t, "bo"))
+			}
+			return b
+		case 3:
+			o := devpath.Option{Attributes: rapid.Uint32().Draw(t, "oa"), Description: gen.UnicodeString(20).Draw(t, "desc"), Nodes: []devpath.Node{{Kind: "file", Path: "\\EFI\\x.efi"}}}
+			return append(attrs, o.Encode()...)
+		default:
+			return append(attrs, util.MarshalUtf16Var(gen.UnicodeString(12).Draw(t, "s"))...)
+		}
 	case "typed_getters":
 		switch rapid.IntRange(0, 2).Draw(t, "tk") {
 		case 0:
@@ -564,7 +634,62 @@ func genCase(t *rapid.T) Case {
 		}
 	}
 	entry := rapid.SampledFrom(real).Draw(t, "entry")
-	in, class := mutate(t, validFor(t, entry))
+	valid := validFor(t, entry)
+	if off, isESL := map[string]int{"sigdb": 0, "siglist": 0, "typed_getters": 4, "legacy_getters": 4, "testfs_write": 0}[entry]; isESL && len(valid) >= off+28+16 && rapid.IntRange(0, 7).Draw(t, "countlie") == 0 {
+		// the first list announces far more signatures than the input holds, consistently (ListSize = 28 + n x
+		// SignatureSize, with the SignatureSize the list really has): a decoder that sizes anything by that count
+		b := append([]byte{}, valid...)
+		size := binary.LittleEndian.Uint32(b[off+24:])
+		if size >= 16 && size < 1<<20 {
+			n := rapid.SampledFrom([]uint32{1 << 16, 1 << 20, 1 << 24, (0xffffffff - 28) / size}).Draw(t, "liecount")
+			binary.LittleEndian.PutUint32(b[off+16:], 28+binary.LittleEndian.Uint32(b[off+20:])+n*size)
+			return Case{Entry: entry, Input: b, Class: "announced_signature_count"}
+		}
+	}
+	if off, isESL := map[string]int{"sigdb": 0, "siglist": 0, "typed_getters": 4, "legacy_getters": 4}[entry]; isESL && len(valid) >= off && gen.Chance(t, "eslshape", 1, 24) {
+		prefix := append([]byte{}, valid[:off]...)
+		if off != 0 || rapid.IntRange(0, 2).Draw(t, "wrap") != 0 {
+			// well-formed lists followed by a header whose ListSize makes a 32-bit running offset wrap back to an
+			// earlier list (or to just short of the end): a walker that adds sizes in uint32 never gets past it
+			var ls1 []esl.List
+			for _, l := range gen.ESLStream(2).Draw(t, "wrapbody") {
+				if l.Type != esl.ExtMgm && len(l.Entries) > 0 {
+					ls1 = append(ls1, l)
+				}
+			}
+			if len(ls1) == 0 {
+				ls1 = []esl.List{{Type: esl.SHA256, Size: 48, Entries: []esl.Entry{{Owner: gen.Owners[0], Data: gen.FillBytes(t, 32)}}}}
+			}
+			body := esl.Encode(ls1)
+			L := uint32(len(body))
+			ls := rapid.SampledFrom([]uint32{-L, -L, -L, -L + 28, 28 - L, 0xffffffe4, 0xfffffffc}).Draw(t, "wrapsize")
+			hdr := append([]byte{}, esl.SHA256.Wire()...)
+			hdr = binary.LittleEndian.AppendUint32(hdr, ls)
+			hdr = binary.LittleEndian.AppendUint32(hdr, 0)
+			hdr = binary.LittleEndian.AppendUint32(hdr, 48)
+			return Case{Entry: entry, Input: append(append(prefix, body...), hdr...), Class: "list_size_wraps_32_bits"}
+		}
+		// one list with tens of thousands of distinct hashes (a real revocation list is one list): quadratic work per
+		// list shows here and nowhere else
+		n := rapid.SampledFrom([]int{30000, 80000}).Draw(t, "nhashes")
+		out := append(prefix, esl.SHA256.Wire()...)
+		out = binary.LittleEndian.AppendUint32(out, uint32(28+48*n))
+		out = binary.LittleEndian.AppendUint32(out, 0)
+		out = binary.LittleEndian.AppendUint32(out, 48)
+		seed := rapid.Uint64().Draw(t, "hashseed") | 1
+		owner := gen.Owners[0].Wire()
+		for i := 0; i < n; i++ {
+			out = append(out, owner...)
+			for j := 0; j < 4; j++ {
+				seed ^= seed << 13
+				seed ^= seed >> 7
+				seed ^= seed << 17
+				out = binary.LittleEndian.AppendUint64(out, seed)
+			}
+		}
+		return Case{Entry: entry, Input: out, Class: "one_list_of_many_distinct_hashes"}
+	}
+	in, class := mutate(t, valid)
 	if rapid.IntRange(0, 9).Draw(t, "second") == 0 {
 		var c2 string
 		in, c2 = mutate(t, in)
